@@ -226,6 +226,8 @@ def model_value(model, v, heap, memo=None):
             r = {'__dict__': [(model_value(model, getattr(k, 'sym', k), heap, memo), model_value(model, x, heap, memo)) for k, x in o.items.items()]}
         elif isinstance(o, MObj):
             r = {'__map__': map_value(model, o)}
+        elif hasattr(o, 'ext_model'):
+            r = o.ext_model(lambda x: model_value(model, x, heap, memo))
         elif isinstance(o, Obj):
             r = {'__obj__': o.model.name if o.model is not None else ((o.cls.__module__ + ':' + o.cls.__qualname__) if o.cls is not None else None), 'fields': {}}
             memo[v.oid] = r
